@@ -30,7 +30,7 @@ def plan(tier, seed):
 
 
 def unit_timeout(tier):
-    return 500 if tier == "quick" else 900
+    return 200 if tier == "quick" else 900
 
 
 def floors(tier):
